@@ -44,7 +44,7 @@ func genCase(t *rapid.T) Case {
 	n := rapid.SampledFrom([]int{0, 1, 1, 1, 2}).Draw(t, "nedits")
 	shaped := false
 	for i, tries := 0, 0; i < n && tries < 8; tries++ {
-		name := rapid.SampledFrom(append([]string{"requiredSatisfiedByAdditionalProperties"}, gen.RuleEdits...)).Draw(t, "edit")
+		name := gen.PickUniform(t, append([]string{"requiredSatisfiedByAdditionalProperties"}, gen.RuleEdits...), "edit")
 		if name == "circularAncestry" && len(c.Edits) > 0 {
 			continue
 		}
